@@ -337,20 +337,33 @@ Fixpoint assoc (k : N) (l : list (N * content)) : option content :=
 Definition lookup (asg : list content) (late : list (N * content)) (k : N) : option content :=
   if N.ltb k (N.of_nat (length asg)) then nth_error asg (N.to_nat k) else assoc k late.
 
-Record lst := mkL { l_c : list (N * content); l_s : list (N * content) }.
-Definition getL (X : bool) (l : lst) := if X then l_s l else l_c l.
-Definition setL (X : bool) (v : list (N * content)) (l : lst) := if X then mkL (l_c l) v else mkL v (l_s l).
-Definition l0 : lst := mkL [] [].
+(* per endpoint: the bindings seen after Close, whether the endpoint has emitted its own close segment (request or
+   response), and the emissions that were checked (ghost, newest first).
+   Exemption: once an endpoint has emitted a close segment its session object is gone; a late datagram of the peer for
+   that session id is then answered by the UNDERLAY (underlay_packet.go, "Session is not registered") with a stateless
+   closeSessionRequest whose sequence field merely echoes the peer's unAckSeq - it is not a sequence number assigned
+   by a session (the receiver handles close requests without looking at it).  Those replies are not checked. *)
+Record ls1 := mkL1 { l_tab : list (N * content); l_flag : bool; l_chk : list dg }.
+Record lst := mkL { l_c : ls1; l_s : ls1 }.
+Definition getL (X : bool) (l : lst) : ls1 := if X then l_s l else l_c l.
+Definition setL (X : bool) (v : ls1) (l : lst) : lst := if X then mkL (l_c l) v else mkL v (l_s l).
+Definition l0 : lst := mkL (mkL1 [] false []) (mkL1 [] false []).
+Definition ty_close_req : N := tyN C02_ProtoCloseSessionRequest.
+Definition is_close (ty : N) : bool := N.eqb ty ty_close_req || N.eqb ty (tyN C02_ProtoCloseSessionResponse).
 
 (* a = the acceptor state at Close *)
 Definition late_step (a : ast) (l : lst) (e : event) : option lst :=
   match e with
   | ES X g =>
+      let x := getL X l in
       if is_seq X (g_ty g) then
-        match lookup (e_asg (getE X a)) (getL X l) (g_seq g) with
-        | Some c => if content_eqb c (cont g) then Some l else None
-        | None => Some (setL X ((g_seq g, cont g) :: getL X l) l)
-        end
+        if l_flag x && N.eqb (g_ty g) ty_close_req then Some l
+        else
+          let fl := l_flag x || is_close (g_ty g) in
+          match lookup (e_asg (getE X a)) (l_tab x) (g_seq g) with
+          | Some c => if content_eqb c (cont g) then Some (setL X (mkL1 (l_tab x) fl (g :: l_chk x)) l) else None
+          | None => Some (setL X (mkL1 ((g_seq g, cont g) :: l_tab x) fl (g :: l_chk x)) l)
+          end
       else if is_ack X (g_ty g) then Some l else None
   | _ => Some l
   end.
@@ -360,6 +373,8 @@ Fixpoint late_run (a : ast) (l : lst) (post : list event) : option lst :=
   | e :: t => match late_step a l e with Some l' => late_run a l' t | None => None end
   end.
 (* the whole recorded session: [pre] accepted by the acceptor, [post] consistent with it *)
+Definition late_final (pre post : list event) : option lst :=
+  match accept pre with inl a => late_run a l0 post | inr _ => None end.
 Definition accept_closed (pre post : list event) : bool :=
   match accept pre with
   | inl a => match late_run a l0 post with Some _ => true | None => false end
@@ -417,3 +432,49 @@ Definition winit (cw rw rs : nat) : wst := mkW (init (Nat.min cw rw)) cw rw rs [
 Inductive wreach : wst -> Prop :=
 | wreach_init : forall cw rw rs, minWindow <= cw -> wreach (winit cw rw rs)
 | wreach_step : forall s l s', wreach s -> wstep s l s' -> wreach s'.
+
+(* ------------------------------------------------------------------------------------------------ *)
+(* Part 1c. inputData never blocks.  The session's input loop is fed by the ONE goroutine that reads the UDP socket
+   for every session of the underlay (through a 256 entry channel), so a step of the input loop that waits on the
+   application would stall all sessions of the underlay.  inputData (packet branch), faithfully:
+     if receiveWindowSize() <= 0 then drop                      -- window = capacity - |recvBuf| - |recvQueue|
+     else if recvBuf.Insert fails (tree holds capacity entries) then drop
+     else waitForRecvQueueSpace()  -- WOULD WAIT for the application iff recvQueue holds capacity entries
+          ; moveRecvBufToRecvQueue  -- while recvQueue has room and the minimum of recvBuf is <= nextRecv
+   The outcome InBlocked below is the waiting branch; input_never_blocks shows it is unreachable, and
+   input_nocheck_blocks shows that it is reachable when the window test is left out. *)
+
+Record rcv := mkR {
+  r_next : nat;                      (* nextRecv *)
+  r_buf : list (nat * content);      (* recvBuf *)
+  r_queue : nat                      (* number of segments in recvQueue (moved, not yet taken by Read) *)
+}.
+Definition capN : nat := Z.to_nat C02_segmentTreeCapacity.
+Definition rwindow (r : rcv) : nat := capN - length (r_buf r) - r_queue r.
+Inductive in_outcome := InDropped | InAccepted | InBlocked.
+
+(* ReplaceOrInsert keyed by the sequence number *)
+Definition rb_insert (d : nat * content) (l : list (nat * content)) : list (nat * content) :=
+  d :: filter (fun e => negb (Nat.eqb (fst e) (fst d))) l.
+(* moveRecvBufToRecvQueue: entries below nextRecv are discarded, the entry nextRecv is moved, while the queue has room *)
+Fixpoint move_loop (fuel : nat) (r : rcv) : rcv :=
+  match fuel with
+  | O => r
+  | S f =>
+      if Nat.leb capN (r_queue r) then r
+      else match take (r_next r) (r_buf r) with
+           | Some (_, rb') => move_loop f (mkR (S (r_next r)) rb' (S (r_queue r)))
+           | None => mkR (r_next r) (filter (fun e => negb (Nat.ltb (fst e) (r_next r))) (r_buf r)) (r_queue r)
+           end
+  end.
+Definition input_body (r : rcv) (d : nat * content) : rcv * in_outcome :=
+  if Nat.leb capN (length (r_buf r)) then (r, InDropped)
+  else let r1 := mkR (r_next r) (rb_insert d (r_buf r)) (r_queue r) in
+       if Nat.leb capN (r_queue r1) then (r1, InBlocked)
+       else (move_loop (S (length (r_buf r1))) r1, InAccepted).
+Definition input_data (r : rcv) (d : nat * content) : rcv * in_outcome :=
+  if Nat.eqb (rwindow r) 0 then (r, InDropped) else input_body r d.
+(* the same without the receive-window test *)
+Definition input_data_nocheck (r : rcv) (d : nat * content) : rcv * in_outcome := input_body r d.
+(* Read takes one segment from recvQueue *)
+Definition app_take (r : rcv) : rcv := mkR (r_next r) (r_buf r) (Nat.pred (r_queue r)).
